@@ -1,4 +1,5 @@
 import Feox.Drv.Fsm
+import Feox.Drv.Fmt
 /-! `feoxdrv` — the Lean side of the correspondence check: reads one operation per line on
 stdin, runs the executable models, prints one answer line per input line.  Imports models
 only (no Mathlib, no proof files), so it links as a native executable. -/
@@ -7,19 +8,23 @@ open Feox
 structure Drv where
   fsm : Fsm.State := {}
 
-def stepLine (d : Drv) (line : String) : Drv × String :=
+def stepLine (d : Drv) (line : String) : IO (Drv × String) := do
   match (line.trimAscii.toString.splitOn " ").filter (· ≠ "") with
   | "fsm" :: rest =>
     match Drv.FsmDrv.handle d.fsm rest with
-    | some (s, out) => ({ d with fsm := s }, out)
-    | none => (d, "bad-op")
-  | [] => (d, "")
-  | _ => (d, "bad-op")
+    | some (s, out) => pure ({ d with fsm := s }, out)
+    | none => pure (d, "bad-op")
+  | "fmt" :: rest =>
+    match ← Drv.FmtDrv.handleIO rest with
+    | some out => pure (d, out)
+    | none => pure (d, "bad-op")
+  | [] => pure (d, "")
+  | _ => pure (d, "bad-op")
 
 partial def loop (h : IO.FS.Stream) (out : IO.FS.Stream) (d : Drv) : IO Unit := do
   let line ← h.getLine
   if line.isEmpty then return ()
-  let (d', o) := stepLine d line
+  let (d', o) ← stepLine d line
   out.putStrLn o
   loop h out d'
 
